@@ -35,28 +35,28 @@ type Candidate struct {
 
 // Summary is what a worker reports about all its runs.
 type Summary struct {
-	Wid         int              `json:"wid"`
-	Race        bool             `json:"race"`
-	Runs        int              `json:"runs"`
-	NextIdx     int              `json:"next_idx"`
-	Ops         int64            `json:"ops"`
-	Steps       int64            `json:"steps"`
-	Switches    int64            `json:"switches"`
-	Faults      map[string]int64 `json:"faults"`
-	Probes      map[string]int64 `json:"probes"`
-	Skipped     map[string]int64 `json:"skipped"`
-	Shapes      []uint64         `json:"shapes"`  // hashes of non-trivial (workload shape, fault-fired set, switch sequence)
-	Inter       []uint64         `json:"inter"`   // hashes of distinct interleavings (event hashes of runs with >=1 switch)
-	Goldens     int              `json:"goldens"` // reference processes spawned by this worker
-	Projects    int              `json:"projects"`
-	Sites       int              `json:"sites"`
-	SitesHit    []int            `json:"sites_hit,omitempty"`
-	LinChecked  int              `json:"lin_checked"`
-	LinUnknown  int              `json:"lin_unknown"`
-	WallS       float64          `json:"wall_s"`
-	Samples     []json.RawMessage `json:"samples,omitempty"`
-	Violations  int              `json:"violations"`
-	DetCheck    []string         `json:"det,omitempty"` // "seed:eventhash:obshash" lines for the determinism self-test
+	Wid        int               `json:"wid"`
+	Race       bool              `json:"race"`
+	Runs       int               `json:"runs"`
+	NextIdx    int               `json:"next_idx"`
+	Ops        int64             `json:"ops"`
+	Steps      int64             `json:"steps"`
+	Switches   int64             `json:"switches"`
+	Faults     map[string]int64  `json:"faults"`
+	Probes     map[string]int64  `json:"probes"`
+	Skipped    map[string]int64  `json:"skipped"`
+	Shapes     []uint64          `json:"shapes"`  // hashes of non-trivial (workload shape, fault-fired set, switch sequence)
+	Inter      []uint64          `json:"inter"`   // hashes of distinct interleavings (event hashes of runs with >=1 switch)
+	Goldens    int               `json:"goldens"` // reference processes spawned by this worker
+	Projects   int               `json:"projects"`
+	Sites      int               `json:"sites"`
+	SitesHit   []int             `json:"sites_hit,omitempty"`
+	LinChecked int               `json:"lin_checked"`
+	LinUnknown int               `json:"lin_unknown"`
+	WallS      float64           `json:"wall_s"`
+	Samples    []json.RawMessage `json:"samples,omitempty"`
+	Violations int               `json:"violations"`
+	DetCheck   []string          `json:"det,omitempty"` // "seed:eventhash:obshash" lines for the determinism self-test
 }
 
 type workerArgs struct {
